@@ -13,7 +13,14 @@
 //                        consecutive thresholds the event selected at its midpoint, the cell ends
 //                        as integer numerators llround(t*S) (S = the tree's sum of rates, integer valued);
 //                        also probes p=0, p=1 and every threshold itself
-//   marcus ...           Rate_Engine::Rate on constructed Segment/QMPair objects
+//   graph ...            builds a Topology (segments + neighbour list) and runs the real
+//                        KMCCalculator::LoadGraph on it; prints the direct Rate_Engine rates per
+//                        pair and, per node, injectable flag, escape rate, tree flag and events
+//   place i | tick dt | jump k | reset   one Chargecarrier on the nodes of the last graph
+//                        (settoNote / updateLifetime+updateSteps+updateOccupationtime /
+//                        jumpAccordingEvent); each prints the carrier's and the nodes' bookkeeping
+//   marcus ...           Rate_Engine::Rate on constructed Segment/QMPair objects (the carrier
+//                        slots of the OTHER three carrier types are filled with decoy values)
 //   promote <raw> <k>    KMCCalculator::Promotetime(k) with the uniform variate scripted to raw
 //   choose <raw>         KMCCalculator::ChooseHoppingDest(node) with the uniform scripted to raw
 //
@@ -37,6 +44,8 @@
 #include "votca/xtp/qmpair.h"
 #include "votca/xtp/rate_engine.h"
 #include "votca/xtp/segment.h"
+#include "votca/xtp/chargecarrier.h"
+#include "votca/xtp/topology.h"
 
 using namespace votca;
 using namespace votca::xtp;
@@ -64,6 +73,19 @@ class KmcProbe : public KMCCalculator {
     RandomVariable_.distribution_ = std::uniform_real_distribution<double>(raw, raw);
   }
   double promote(double k) { return Promotetime(k); }
+  void configure(QMStateType c, double kT, const Eigen::Vector3d& F, const std::string& inj,
+                 const std::string& ign) {
+    carriertype_ = c;
+    temperature_ = kT;
+    field_ = F;
+    injection_name_ = inj;
+    ignoresegments_ = ign;
+    ratefile_ = "/dev/null";
+    numberofcarriers_ = 1;
+    log_.setReportLevel(Log::error);
+  }
+  void load(Topology& top) { LoadGraph(top); }
+  std::vector<GNode>& nodes() { return nodes_; }
   const GLink& choose(const GNode& n) { return ChooseHoppingDest(n); }
 
  protected:
@@ -96,6 +118,9 @@ int main() {
   std::unique_ptr<GNode> node;
   std::vector<GNode> dests;  // destinations of the events (never dereferenced by the tree)
   KmcProbe kmc;
+  std::unique_ptr<Topology> top;
+  std::unique_ptr<KmcProbe> gk;
+  std::unique_ptr<Chargecarrier> walker;
   while (std::getline(std::cin, line)) {
     ++seq;
     std::istringstream in(line);
@@ -190,6 +215,91 @@ int main() {
           std::cout << " " << ev << " " << std::llround(t[k] * S) << " " << std::llround(t[k + 1] * S);
         }
         std::cout << std::endl;
+      } else if (cmd == "graph") {
+        // graph c kT Fx Fy Fz inj ign u J0 n {type E}*n np {a b Rx Ry Rz jm}*np
+        std::string c, inj, ign;
+        double kT, F[3], u, J0;
+        long n, np;
+        in >> c >> kT >> F[0] >> F[1] >> F[2] >> inj >> ign >> u >> J0 >> n;
+        QMStateType st = carrier(c);
+        top.reset(new Topology());
+        top->setBox(Eigen::Matrix3d::Identity() * 100.0);
+        std::vector<double> E(n);
+        std::vector<std::string> types(n);
+        for (long i = 0; i < n; ++i) {
+          in >> types[i] >> E[i];
+          top->AddSegment(types[i]);
+        }
+        for (long i = 0; i < n; ++i) {
+          Segment& sg = top->getSegment(i);
+          sg.setEMpoles(st, E[i]);
+          sg.setU_nX_nN(u, st);
+          sg.setU_xN_xX(u, st);
+        }
+        in >> np;
+        for (long k = 0; k < np; ++k) {
+          long a, b;
+          double R[3], jm;
+          in >> a >> b >> R[0] >> R[1] >> R[2] >> jm;
+          QMPair& pr = top->NBList().Add(top->getSegment(a), top->getSegment(b),
+                                         Eigen::Vector3d(R[0], R[1], R[2]));
+          pr.setJeff2(jm * J0, st);
+        }
+        if (!in) throw std::runtime_error("bad graph command");
+        Rate_Engine eng(kT, Eigen::Vector3d(F[0], F[1], F[2]));
+        for (long k = 0; k < np; ++k) {
+          Rate_Engine::PairRates pr = eng.Rate(*top->NBList()[k], st);
+          std::cout << "pair " << k << " " << pr.rate12 << " " << pr.rate21 << std::endl;
+        }
+        walker.reset(new Chargecarrier(0));
+        gk.reset(new KmcProbe());
+        gk->configure(st, kT, Eigen::Vector3d(F[0], F[1], F[2]), inj, ign == "-" ? std::string("") : ign);
+        std::string failed;
+        try {
+          gk->load(*top);
+        } catch (const std::exception& e) {
+          failed = e.what();
+        }
+        for (const GNode& nd : gk->nodes()) {
+          std::cout << "node " << nd.getId() << " inj " << (nd.isInjectable() ? 1 : 0) << " esc "
+                    << nd.getEscapeRate() << " tree " << (nd.hTree.treeIsMade ? 1 : 0) << " nev "
+                    << nd.Events().size();
+          for (const GLink& l : nd.Events()) {
+            std::cout << " " << (l.isDecayEvent() ? -1 : l.getDestination()->getId()) << " "
+                      << l.getRate() << " " << l.getDeltaR().x() << " " << l.getDeltaR().y() << " "
+                      << l.getDeltaR().z();
+          }
+          std::cout << std::endl;
+        }
+        if (!failed.empty()) std::cout << "loadfailed " << failed << std::endl;
+        std::cout << "loaded " << gk->nodes().size() << std::endl;
+      } else if (cmd == "place" || cmd == "tick" || cmd == "jump" || cmd == "reset") {
+        if (!gk || !walker) throw std::runtime_error("no graph");
+        if (cmd == "place") {
+          long i;
+          in >> i;
+          if (walker->hasNode()) walker->ReleaseNode();   // as RandomlyAssignCarriertoSite does
+          walker->settoNote(&gk->nodes().at(i));
+        } else if (cmd == "tick") {
+          double dt;
+          in >> dt;
+          walker->updateLifetime(dt);
+          walker->updateSteps(1);
+          walker->updateOccupationtime(dt);
+        } else if (cmd == "reset") {
+          walker->resetCarrier();
+        } else {
+          long k;
+          in >> k;
+          walker->jumpAccordingEvent(walker->getCurrentNode().Events().at(k));
+        }
+        if (!in) throw std::runtime_error("bad walk command");
+        const Eigen::Vector3d& d = walker->get_dRtravelled();
+        std::cout << "carrier " << walker->getCurrentNodeId() << " " << walker->getLifetime() << " "
+                  << walker->getSteps() << " " << d.x() << " " << d.y() << " " << d.z();
+        for (const GNode& nd : gk->nodes())
+          std::cout << " " << (nd.isOccupied() ? 1 : 0) << " " << nd.OccupationTime();
+        std::cout << std::endl;
       } else if (cmd == "marcus") {
         // marcus c kT Fx Fy Fz Rx Ry Rz em1 ux1 n1 x1 em2 ux2 n2 x2 lo J2   (Hartree, bohr)
         std::string c;
@@ -199,6 +309,19 @@ int main() {
         if (!in) throw std::runtime_error("bad marcus command");
         QMStateType st = carrier(c);
         Segment s1("one", 0), s2("two", 1);
+        QMPair pair(0, &s1, &s2, Eigen::Vector3d(R[0], R[1], R[2]));
+        // decoys: the slots of the other carrier types must not leak into this carrier's rate
+        int slot = 0;
+        for (const char* oc : {"e", "h", "s", "t"}) {
+          ++slot;
+          if (c == oc) continue;
+          QMStateType o = carrier(oc);
+          double d = 0.37 * slot;
+          s1.setEMpoles(o, 3 * d); s1.setU_xX_nN(-d, o); s1.setU_nX_nN(5 * d, o); s1.setU_xN_xX(7 * d, o);
+          s2.setEMpoles(o, -2 * d); s2.setU_xX_nN(d, o); s2.setU_nX_nN(11 * d, o); s2.setU_xN_xX(13 * d, o);
+          pair.setLambdaO(17 * d, o);
+          pair.setJeff2(19 * d, o);
+        }
         s1.setEMpoles(st, em1);
         s1.setU_xX_nN(ux1, st);
         s1.setU_nX_nN(n1, st);
@@ -207,7 +330,6 @@ int main() {
         s2.setU_xX_nN(ux2, st);
         s2.setU_nX_nN(n2, st);
         s2.setU_xN_xX(x2, st);
-        QMPair pair(0, &s1, &s2, Eigen::Vector3d(R[0], R[1], R[2]));
         pair.setLambdaO(lo, st);
         pair.setJeff2(J2, st);
         Rate_Engine eng(kT, Eigen::Vector3d(F[0], F[1], F[2]));
